@@ -32,8 +32,10 @@ Definition all_rows (hist : list (list wrow)) : list wrow := concat hist.
 (** one resolution step in whole nanoseconds: ceil(tf / 2^32) *)
 Definition step_ns : Z := (tf + 4294967295) / 4294967296.
 
-(** F1 (C10's defect), as far as C09 sees it: the decoded time of a written row is not later than the
-    written time and at most one resolution step (C10's reading: ceil(tf / 2^32) ns) earlier *)
+(** C10's bound on the tick codec, as far as C09 needs it: the decoded time of a written row is not later
+    than the written time and at most one resolution step (C10's reading: ceil(tf / 2^32) ns) earlier.
+    (Finding F1 — seconds rounded up independently of the nanoseconds — is fixed in /repo, 551fdb4; C10
+    proves the bound only partially, so it stays a hypothesis evaluated per history, not a finding.) *)
 Definition bound_ok (r : wrow) : bool :=
   let q := quantise encf decf tf r in
   let d := tns (w_sec r) (w_ns r) - row_tns q in
@@ -43,9 +45,10 @@ Definition row_ok (r : wrow) : bool :=
   (Z.of_nat (length (w_pay r)) =? plen) && (0 <=? w_sec r) && (w_sec r <? 86400 * dby 10000)
   && (0 <=? w_ns r) && (w_ns r <? nsPerSec).
 
-(** the guard: well-formed rows dated 1970..9999; no F2 row; no F3 misfire in any request; the final
-    state is a well-formed file state and every row decodes within C10's bound (decoded times inside
-    their intervals and in tick order: no F1 defect; queryable timeframe: not 4H); the reader's second-stage buffer does not panic (F4) *)
+(** the guard: well-formed rows dated 1970..9999; no F2 row; no F3 misfire in any request; the codec
+    hypothesis (every row decodes within C10's bound; in the final file state decoded times lie inside
+    their intervals and follow tick order — [wf_bucket], which also demands a queryable timeframe: not
+    4H); files dated 1970+; fewer than 2^31 rows.  (F4 — second-stage buffer panic — and F1 are fixed.) *)
 Definition guard_C09 (hist : list (list wrow)) : bool :=
   forallb row_ok (all_rows hist)
   && negb (existsb (f2_row tf) (all_rows hist))
@@ -53,7 +56,7 @@ Definition guard_C09 (hist : list (list wrow)) : bool :=
   && forallb bound_ok (all_rows hist)
   && wf_bucket (final_bucket hist)
   && forallb (fun f => 1970 <=? y_year f) (b_files (final_bucket hist))
-  && match var_candidates (final_bucket hist) all_start all_end with
+  && match var_candidates (final_bucket hist) all_start (clamp_end all_end) with
      | Ok c => Z.of_nat (length c) <=? maxInt32
      | _ => false
      end.
